@@ -84,8 +84,11 @@ def arep (step : Nat → Option (List Nat)) : Nat → Nat → Option Nat → Nat
 
 /-! the per-constructor work is kept in small separate definitions so that unfolding the recursive `aover` stays cheap for the kernel -/
 
+/-- the window character at `off` (0 outside the window; only used inside) -/
+def WCtx.at (K : WCtx) (off : Nat) : Cp := K.w.getD off 0
+
 def aSet (K : WCtx) (S : CpSet) (off : Nat) : Option (List Nat) :=
-  if h : off < K.w.size then (if S.mem K.w[off] then some [off + 1] else some [])
+  if off < K.w.size then (if S.mem (K.at off) then some [off + 1] else some [])
   else if off = K.w.size then (if K.cNotIn S then some [] else none)
   else none
 
@@ -111,10 +114,10 @@ def aLook (K : WCtx) (ahead neg : Bool) (w : Nat) (r : Re) (off : Nat) (inner : 
   else some [off]
 
 def aWordB (K : WCtx) (off : Nat) : Option (List Nat) :=
-  if h : 0 < off ∧ off < K.w.size then
-    (if K.word.mem K.w[off - 1] == K.word.mem K.w[off] then some [] else some [off])
-  else if h : 0 < off ∧ off = K.w.size then
-    (if K.cNotIn K.word && !(K.word.mem K.w[off - 1]) then some [] else some [off])
+  if 0 < off ∧ off < K.w.size then
+    (if K.word.mem (K.at (off - 1)) == K.word.mem (K.at off) then some [] else some [off])
+  else if 0 < off ∧ off = K.w.size then
+    (if K.cNotIn K.word && !(K.word.mem (K.at (off - 1))) then some [] else some [off])
   else some [off]
 
 def aover (K : WCtx) : Re → Nat → Option (List Nat)
@@ -137,10 +140,10 @@ structure WSound (K : WCtx) (E : Env) (p : Nat) (c : Cp) : Prop where
   word : E.word = K.word
 
 theorem WSound.get_lt {K : WCtx} {E : Env} {p : Nat} {c : Cp} (H : WSound K E p c) (off : Nat) (h : off < K.w.size) :
-    E.s[p + off]? = some K.w[off] := by
+    E.s[p + off]? = some (K.at off) := by
   obtain ⟨rest, ht⟩ := H.text
   rw [getElem?_of_drop E p off _ ht, List.getElem?_append_left (by simpa using h)]
-  simp [h]
+  simp [WCtx.at, Array.getD, h]
 
 theorem WSound.get_eq {K : WCtx} {E : Env} {p : Nat} {c : Cp} (H : WSound K E p c) :
     E.s[p + K.w.size]? = some c := by
